@@ -208,6 +208,88 @@ def run_histories(unit):
     return st
 
 
+def run_daemons(unit):
+    """several daemons of one process serve the same class: 'single' means one instance per daemon; a daemon started after another
+    one was shut down starts afresh. histories over {call via daemon 0, call via daemon 1, shut daemon 0 down and start a new one}"""
+    from vf.syncworld import SyncWorld
+    from Pyro5 import client, server, errors
+    mode, creator, maxlen = unit
+    st = Stats()
+    seen = set()
+
+    def V(fp, what, h):
+        fp = "C09|" + fp
+        if fp not in seen:
+            seen.add(fp)
+            st.violations.append({"fingerprint": fp, "what": "%s [mode=%s creator=%s history=%s]" % (what, mode, creator, h), "replay": {"daemons_unit": [mode, creator, maxlen], "history": list(h)}})
+    gc.disable()
+    w = SyncWorld()
+    try:
+        for n in range(1, maxlen + 1):
+            for h in itertools.product(("call0", "call1", "restart0"), repeat=n):
+                st.executions += 1
+                reg = Registry()
+                cls = make_class(mode, "truthy", creator, reg, server)
+                ds, proxies = {}, {}
+
+                def start(k):
+                    d = w.daemon()
+                    d.register(cls, "obj")
+                    ds[k] = d
+                    proxies[k] = client.Proxy("PYRO:obj@h:%d" % w._port)
+
+                def stop(k):
+                    proxies[k]._pyroRelease()
+                    w.net.detach_sync(ds[k])
+                    ds[k].close()
+                    w.daemons.remove(ds[k])
+                start(0)
+                start(1)
+                m_inst = {}         # daemon slot -> serial of its single/session instance
+                m_creations = 0
+                seen_serials = []
+                for op in h:
+                    st.points += 1
+                    k = int(op[-1])
+                    if op.startswith("restart"):
+                        stop(k)
+                        start(k)
+                        m_inst.pop(k, None)
+                        continue
+                    try:
+                        serial = proxies[k]._pyroInvoke("who", (), {})
+                    except Exception as x:
+                        V("call-failed|daemons|%s" % type(x).__name__, "%r" % x, h)
+                        break
+                    fresh = mode == "percall" or k not in m_inst
+                    if fresh:
+                        m_creations += 1
+                        if serial in seen_serials:
+                            V("instance-shared-between-daemons|%s" % mode, "daemon slot %d answered with instance %d which served %r before" % (k, serial, seen_serials), h)
+                        m_inst[k] = serial
+                    elif serial != m_inst[k]:
+                        V("instance-recreated|daemons|%s" % mode, "daemon slot %d served by %d, its instance is %d" % (k, serial, m_inst[k]), h)
+                        m_inst[k] = serial
+                    seen_serials.append(serial)
+                else:
+                    if reg.serial != m_creations:
+                        V("instances-created|daemons|%s|%s" % (mode, "more" if reg.serial > m_creations else "fewer"), "%d constructed, model %d" % (reg.serial, m_creations), h)
+                    if creator == "counting" and reg.creator_calls != m_creations:
+                        V("creator-call-count|daemons|%s" % mode, "creator called %d times, model %d" % (reg.creator_calls, m_creations), h)
+                for k in list(ds):
+                    stop(k)
+                oc = "daemons:%s:%s:%d" % (mode, creator, reg.serial)
+                st.outcomes[oc] = st.outcomes.get(oc, 0) + 1
+                st.states.add((mode, "daemons", creator, h))
+        if w.net.pump_errors:
+            V("daemon-loop-error", "%r" % w.net.pump_errors[:2], [])
+    finally:
+        w.close()
+        gc.enable()
+        gc.collect()
+    return st
+
+
 # ------------------------------------------------------------------------------------------------ schedules
 class FakeConn:
     def __init__(self):
@@ -296,6 +378,8 @@ def run(ctx):
     units = [(m, s, c, maxlen if (s in ("truthy", "falsy_len") or not quick) else 4, 2 if quick else 3) for m in MODES for s in SHAPES for c in CREATORS]
     for st in ctx.pmap(run_histories, units):
         total.merge(st)
+    for st in ctx.pmap(run_daemons, [(m, c, 4 if quick else 6) for m in MODES for c in ("none", "counting")]):
+        total.merge(st)
     scfgs = []
     for shape in ("truthy", "eq_always_false") + (() if quick else ("falsy_len",)):
         for creator in ("none", "counting"):
@@ -314,8 +398,9 @@ def run(ctx):
         rule="(1) every valid history (canonical connection order) of open/call/close steps of up to %d connections, length <= %d, for 3 instance modes x 5 instance shapes "
              "(truthy, falsy via __len__, falsy via __bool__, __eq__ always True / always False with constant hash) x 4 creators (none, counting, failing once, wrong "
              "type), each on a fresh real daemon over the in-memory transport, against a serial-number model (which instance served each call, constructor and creator "
-             "counts, session instance dead after its connection); (2) every schedule (line granularity inside Daemon._getInstance, preemption bound 2/3) of 2-3 "
-             "threads making concurrent first calls; distinct = (mode, shape, creator, history) cases" % (2 if quick else 3, maxlen),
+             "counts, session instance dead after its connection); (1b) every sequence (length <= %d) of {call via daemon A, call via daemon B, shut A down and start "
+             "a new daemon} with two daemons of the process serving the same class; (2) every schedule (line granularity inside Daemon._getInstance, preemption bound 2/3) of 2-3 "
+             "threads making concurrent first calls; distinct = (mode, shape, creator, history) cases" % (2 if quick else 3, maxlen, 4 if quick else 6),
         nontrivial=len(total.states))
     return {"violations": total.violations, "coverage": cov,
             "assumptions": ["schedule part drives Daemon._getInstance of a real daemon directly, with stand-in connection objects"]}
@@ -326,5 +411,8 @@ def replay(ctx, payload):
     if "sched_cfg" in r:
         res = make_sched_run(r["sched_cfg"])(Chooser([tuple(c) for c in payload["choices"]]))
         return {"violations": res["violations"]}
+    if "daemons_unit" in r:
+        st = run_daemons(tuple(r["daemons_unit"]))
+        return {"violations": [v for v in st.violations if v["fingerprint"] == payload["fingerprint"]]}
     st = run_histories(tuple(r["unit"]))
     return {"violations": [v for v in st.violations if v["fingerprint"] == payload["fingerprint"]]}
